@@ -95,6 +95,7 @@ type c19Doer struct {
 	peers    map[string]*c19Peer
 	names    []string
 	answered map[string]time.Time // peer -> CurrentTime it reported
+	asked    map[string]int
 }
 
 type bodyCloser struct{ io.Reader }
@@ -107,6 +108,7 @@ func (d *c19Doer) Do(req *http.Request) (*http.Response, error) {
 	if p == nil {
 		return nil, errors.New("no such host " + host)
 	}
+	d.asked[host]++
 	ctx := req.Context()
 	wait := func(ms int64) error {
 		if ms <= 0 {
@@ -158,7 +160,7 @@ func (c19Engine) Execute(raw json.RawMessage, prop string) (*core.Result, error)
 	res := &core.Result{}
 	tr := &core.Trace{}
 	synctest.Test(c19T, func(t *testing.T) {
-		d := &c19Doer{peers: map[string]*c19Peer{}, answered: map[string]time.Time{}}
+		d := &c19Doer{peers: map[string]*c19Peer{}, answered: map[string]time.Time{}, asked: map[string]int{}}
 		for i := range sc.Steps {
 			name := fmt.Sprintf("peer%d:60667", i)
 			d.names = append(d.names, name)
@@ -181,7 +183,16 @@ func (c19Engine) Execute(raw json.RawMessage, prop string) (*core.Result, error)
 		if sc.API == "master" {
 			err = SynchronizedWithMasterAndNetwork("self:1", d.names[0], "pw")
 		} else {
-			err = SynchronizedWithNetwork("self:1", append([]string{"self:1"}, d.names...), "pw")
+			// the node's own address may stand anywhere in the configuration
+			pos := 0
+			if len(d.names) > 0 {
+				pos = int(hashPeers(sc) % uint64(len(d.names)+1))
+			}
+			var cfg []string
+			cfg = append(cfg, d.names[:pos]...)
+			cfg = append(cfg, "self:1")
+			cfg = append(cfg, d.names[pos:]...)
+			err = SynchronizedWithNetwork("self:1", cfg, "pw")
 		}
 		res.SimMillis = time.Since(t0).Milliseconds()
 		tr.Log("api=%s disabled=%v err=%v answered=%d", sc.API, sc.Disabled, err != nil, len(d.answered))
@@ -210,6 +221,13 @@ func (c19Engine) Execute(raw json.RawMessage, prop string) (*core.Result, error)
 				}
 			} else {
 				res.Add("silent_peers", 1)
+			}
+		}
+		// every peer of the network is asked for its time (a peer that is never asked cannot "answer")
+		for name := range d.peers {
+			if d.asked[name] == 0 {
+				p := d.peers[name]
+				res.Violate("C19", "peer-not-asked", "peer-not-asked", fmt.Sprintf("%s (true offset %dms, would answer: %s) was never asked for its time although it is part of the network (api=%s, %d peers)", name, p.OffMs, p.Answer, sc.API, len(sc.Steps)), 0)
 			}
 		}
 		switch {
